@@ -26,22 +26,20 @@ import vlib
 #   keyed    : per-key writes (files / map inserts), read by key only -> C12_keyed_writes_deterministic
 S = "src/"
 SITES = {
-    (S + "backend/project.rs", "ProjectGenerator::generate_cargo_toml", "self.rust_crate_deps", "for", 1):
-        ("emit", "manifest_site / C12_manifest_order_refuted, C12_manifest_deterministic", "dependency lines of Cargo.toml"),
-    (S + "frontend/typechecker/check_expr/calls.rs", "TypeChecker::check_model_or_class_constructor_call", "fields", "for", 1):
-        ("emit", "ctor_site / C12_ctor_diag_order_refuted", "missing-required-field diagnostics"),
-    (S + "frontend/typechecker/check_decl.rs", "TypeChecker::check_trait_conformance_model", "trait_info.methods", "for", 1):
-        ("emit", "trait_site / C12_trait_diag_order_refuted", "missing trait method diagnostics (model)"),
-    (S + "frontend/typechecker/check_decl.rs", "TypeChecker::check_trait_conformance", "trait_info.methods", "for", 1):
-        ("emit", "trait_site / C12_trait_diag_order_refuted", "missing trait method diagnostics (class)"),
-    (S + "frontend/module.rs", "ModuleCollector::collect", "self.loaded", "method:drain", 1):
-        ("emit", "collector_site / C12_collector_order_refuted", "library API, not used by build/check/fmt"),
+    (S + "backend/project.rs", "ProjectGenerator::generate_cargo_toml", "self.rust_crate_deps", "method:iter", 1):
+        ("sorted", "manifest_site / C12_manifest_deterministic", "dependency lines of Cargo.toml: entries sorted by crate name"),
+    (S + "frontend/typechecker/check_expr/calls.rs", "TypeChecker::check_model_or_class_constructor_call", "fields", "method:iter", 1):
+        ("sorted", "ctor_site / C12_ctor_diag_deterministic", "missing-required-field diagnostics: names sorted"),
+    (S + "frontend/typechecker/check_decl.rs", "TypeChecker::check_trait_conformance_model", "trait_info.methods", "method:iter", 1):
+        ("sorted", "trait_site / C12_trait_diag_deterministic", "missing trait method diagnostics (model): methods sorted by name"),
+    (S + "frontend/typechecker/check_decl.rs", "TypeChecker::check_trait_conformance", "trait_info.methods", "method:iter", 1):
+        ("sorted", "trait_site / C12_trait_diag_deterministic", "missing trait method diagnostics (class): methods sorted by name"),
     (S + "frontend/module.rs", "ModuleCollector::modules", "self.loaded", "method:values", 1):
-        ("emit", "collector_site / C12_collector_order_refuted", "iterator handed to the caller; library API, unused"),
-    (S + "cli/test_runner.rs", "run_tests", "all_fixtures", "for", 1):
-        ("emit", "fixture_listing_site / C12_fixture_order_refuted", "`incan test -v` fixture listing"),
+        ("emit", "collector_modules_site / C12_collector_modules_refuted", "iterator handed to the caller; library API without a caller"),
+    (S + "cli/test_runner.rs", "run_tests", "all_fixtures", "method:iter", 1):
+        ("sorted", "fixture_listing_site / C12_fixture_sites_deterministic", "`incan test -v` fixture listing: sorted by name"),
     (S + "cli/test_runner.rs", "get_autouse_fixtures", "fixtures", "method:values", 1):
-        ("emit", "autouse_site / C12_fixture_order_refuted", "order of autouse fixtures appended to required_fixtures"),
+        ("sorted", "autouse_site / C12_fixture_sites_deterministic", "autouse fixtures: names sorted"),
     (S + "backend/project.rs", "ProjectGenerator::generate_multi", "modules", "method:keys", 1):
         ("sorted", "multi_mods_site / C12_sorted_site_deterministic", "mod declarations of main.rs"),
     (S + "backend/project.rs", "ProjectGenerator::generate_nested", "top_level_modules", "method:into_iter", 1):
@@ -430,19 +428,9 @@ def model_terms(cases, observed):
             man = observed.get(c["name"])
             if man is None:
                 continue
-            order = []
-            for l in dep_section(man):
-                n, _, spec = l.partition(" = ")
-                if n in FIXED and n not in c["crates"]:
-                    continue
-                if n in FIXED:
-                    # a crate that is also a built-in: the table iteration skips it when already added
-                    continue
-                order.append((n, spec))
-            # crates that are built-ins and were skipped still sit in the table: put them (any position) too
-            extra = [(n, None) for n in c["crates"] if n in FIXED]
-            ol = coq_list(["(%s, %s)" % (zs(n), "None" if sp == '"*"' else "Some %s" % zs(sp)) for n, sp in order] +
-                          ["(%s, None)" % zs(n) for n, _ in extra])
+            specs = dict(l.partition(" = ")[::2] for l in dep_section(man))
+            # any order will do (the writer sorts): the order of the imports, reversed
+            ol = coq_list(["(%s, %s)" % (zs(n), "Some %s" % zs(specs[n]) if n in specs else "None") for n in reversed(c["crates"])])
             t = "(([] : list str), render_manifest %s %s %s %s %s false %s, ([] : list str))" % (
                 zs(c["name"] if False else "main"), zs(root), zs(ver), "true" if c["serde"] else "false", "true" if c["tokio"] else "false", ol)
         else:
@@ -464,7 +452,7 @@ def run(chk):
     chk.assumptions = [
         "iteration order of a std HashMap/HashSet = an arbitrary permutation of its keys, fixed within one table instance",
         "schema `keyed` sites: the written files / merged maps are only read by key afterwards",
-        "ModuleCollector and the autouse-fixture order are library/test-runner paths not reached by build/check/emit/fmt",
+        "ModuleCollector::modules() (hash-ordered iterator) is a library API without a caller",
     ]
     res = chk.proof_stage("C12", allow_axioms=())
     binary = vlib.build_harness("debug")
@@ -496,7 +484,7 @@ def run(chk):
         # known-finding witnesses run with the generated cases (twice per process: two table instances)
         wcases = []
         for f in chk.findings:
-            if f.get("status") != "known":
+            if f.get("status") not in ("known", "fixed"):
                 continue
             w = f.get("witness", {})
             wcases.append((f, {"name": "kf_" + f["id"].replace("-", "_"), "files": w.get("files", {}), "entry": w.get("entry", "main.incn"),
@@ -561,7 +549,7 @@ def run(chk):
                         r = results[(c["name"], "check", i, 0)]
                         rx = RE_MISSING if c["kind"] == "ctor" else RE_TRAIT
                         real = [m.group(0) for m in rx.finditer(r["stderr"])]
-                        ok = sorted(real) == sorted(msgs) and (len(msgs) > 1 or real == msgs)
+                        ok = real == msgs  # the sites sort by name: exact order
                         if not ok:
                             corr_bad.append({"case": c["name"], "site": c["kind"], "model": msgs, "impl": real, "run": i})
                     elif c["kind"] == "multi":
@@ -596,11 +584,13 @@ def run(chk):
             rs = [results[(wc["name"], cmd, i, rep)] for i in range(runs) for rep in (0, 1)]
             if len({digest(r) for r in rs}) > 1:
                 cls, why = classify(wc, cmd, rs)
-                if cls == f["id"]:
+                if cls == f["id"] and f.get("status") == "known":
                     chk.known(f["id"], "%s: %s" % (f["id"], f["summary"]))
                 else:
-                    fails.append({"case": wc["name"], "command": cmd, "files": wc["files"],
-                                  "why": "witness of %s varies, but not within its class: %s" % (f["id"], why)})
+                    fails.append({"case": wc["name"], "command": cmd, "files": wc["files"], "distinct_outputs": len({digest(r) for r in rs}),
+                                  "why": ("the repaired defect %s is back: %s" % (f["id"], why)) if f.get("status") == "fixed"
+                                  else "witness of %s varies, but not within its class: %s" % (f["id"], why),
+                                  "run_0": summarize(rs[0])})
         chk.coverage["known_classes_seen_in_generated_cases"] = {k: {"case": v[0], "command": v[1], "distinct_outputs": v[3]} for k, v in known_seen.items()}
     finally:
         shutil.rmtree(scratch, ignore_errors=True)
